@@ -4,8 +4,10 @@ import CfrVerif.Proofs.GameWF
 import CfrVerif.Proofs.LocksWide
 import CfrVerif.Proofs.LocksPerm
 import CfrVerif.Proofs.LocksVanillaPerm
+import CfrVerif.Proofs.LocksVanillaRun
 --! audit CfrVerif/Proofs/LocksVanilla.lean
 --! audit CfrVerif/Proofs/LocksVanillaPerm.lean
+--! audit CfrVerif/Proofs/LocksVanillaRun.lean
 --! audit CfrVerif/Proofs/Locks.lean
 --! audit CfrVerif/Proofs/LocksCheck.lean
 --! audit CfrVerif/Proofs/LocksWide.lean
@@ -30,7 +32,7 @@ and every schedule ends (`external_pool_never_deadlocks`).
 For the chance-sampled method "visits exactly the sampled part of the tree once per pass" is also
 a count: the frontier's tasks and the closing recursion together update the average strategy of
 every infoset (take its mutex) exactly once per node of the infoset on the sampled part of the tree,
-for every task target (`vanilla_multi_locks_eq_visits`, `vtrace_acqCount` in
+for every task target (`vanilla_multi_locks_eq_visits_run` for every accepted game and well-formed solver state, from `vanilla_multi_locks_eq_visits`, `vtrace_acqCount` in
 `Proofs/LocksVanilla*.lean`, audited with this property), and no schedule of those mutex operations
 panics or deadlocks (`vanilla_pool_never_deadlocks`).
 -/
